@@ -163,6 +163,7 @@ func c13Exec(root string, c *c13Case, plan core.FSPlan) *c13Outcome {
 			// even where relic pumps data between goroutines (clearsign)
 			sched := core.NewSched(nil)
 			fs.Sched = sched
+			fs.InBubble = true
 			go func() {
 				sched.Name("main")
 				defer func() {
